@@ -342,6 +342,7 @@ class Envelope:
                 # 1. Measure Fock Part
                 if (
                     (separate_measurement and self.fock in states)
+                    or not separate_measurement
                     or len(states) == 0
                     or len(states) == 2
                 ):
@@ -369,6 +370,7 @@ class Envelope:
 
                 if (
                     (separate_measurement and self.polarization in states)
+                    or not separate_measurement
                     or len(states) == 0
                     or len(states) == 2
                 ):
@@ -402,6 +404,7 @@ class Envelope:
                 # 1. Measure Fock Part
                 if (
                     (separate_measurement and self.fock in states)
+                    or not separate_measurement
                     or len(states) == 0
                     or len(states) == 2
                 ):
@@ -437,6 +440,7 @@ class Envelope:
                 # 2. Measure Polarization Part
                 if (
                     (separate_measurement and self.polarization in states)
+                    or not separate_measurement
                     or len(states) == 0
                     or len(states) == 2
                 ):
